@@ -313,7 +313,8 @@ def evalG (fuel : Nat) (F : GFile) (ρ : GEnv) (w : GWorld) (e : GExpr) : GRes G
       match ty, v with
       | .name n, .struct m _ =>
         -- type assertion `x.(T)` on an interface value
-        if n == m || F.interfaces.contains n || n == "any" then .ok v w
+        -- (succeeds when the dynamic type IS `T`, or `T` is an interface the dynamic type implements)
+        if n == m || n == "any" || F.structImplements m n then .ok v w
         else .fail (.panic "interface conversion") w
       | ty, v =>
         match convert ty v with
@@ -391,6 +392,9 @@ def callG (fuel : Nat) (F : GFile) (w : GWorld) (f : GVal) (args : List GVal) : 
     | none =>
       match name, args with
       | "fmt.Sprintf", .str fmt :: rest => .ok (.str (sprintf fmt.toList rest "")) w
+      | "strings.ReplaceAll", [.str s, .str old, .str new] =>
+        if old.isEmpty then .fail (.stuck "go: strings.ReplaceAll with an empty pattern is not modelled") w
+        else .ok (.str (s.replace old new)) w
       | "fmt.Print", [.str s] => .ok .void { w with out := w.out ++ s }
       | "fmt.Println", [.str s] => .ok .void { w with out := w.out ++ s ++ "\n" }
       | "println", _ => .ok .void w          -- builtin println writes to stderr
